@@ -69,13 +69,16 @@ pub enum Act {
     Get { src: u8, target: u8, seq: Option<i64> },
     GetPeers { src: u8, ih: u8 },
     GetSigned { src: u8, ih: u8 },
-    /// v: 0 small, 1 = 1000 bytes, 2 = 1001 bytes, 3 = small but target is not its hash
+    /// v: 0 small, 1 = 1000 bytes, 2 = 1001 bytes, 3 = small but target is not its hash,
+    /// 6 = other bytes presented under the target of value 0, 7 = 1001 bytes under that target
     PutImm { src: u8, v: u8, tok: Tok },
     /// salt: 0 none, 1 short, 2 = 64 bytes, 3 = 65 bytes; val: 0/1 small values, 2 = 1000 B, 3 = 1001 B
     PutMut { src: u8, key: u8, salt: u8, seq: i64, val: u8, cas: Cas, sig: Sig, tok: Tok },
     Announce { src: u8, ih: u8, port: u16, implied: Option<i64>, tok: Tok },
     /// dt: seconds added to the server's wall clock for the timestamp
     AnnounceSigned { src: u8, ih: u8, key: u8, dt: i64, sig_ok: bool, tok: Tok },
+    /// A request that neither yields nor needs a token (ping / find_node).
+    Other { src: u8, find_node: bool },
     Tick(u64),
 }
 
@@ -103,6 +106,8 @@ fn infohash(i: u8) -> Id20 {
 fn imm_value(v: u8) -> Vec<u8> {
     match v {
         0 | 3 => b"small immutable value".to_vec(),
+        6 => b"not the value of that target".to_vec(),
+        7 => vec![0x65; 1001],
         1 => vec![0x61; 1000],
         2 => vec![0x62; 1001],
         n => vec![n; 7],
@@ -244,7 +249,9 @@ impl Model {
         times.sort();
         let gap = times.windows(2).map(|w| w[1] - w[0]).max().unwrap_or(0);
         // "keeps receiving requests": a request in every 5-minute period
-        if gap <= 5 * MIN && age > 10 * MIN + 2 * gap {
+        // (a write accepted at time T implies T <= second rotation <= issue + 10 min + the delay of
+        // the first rotation, which is at most one gap)
+        if gap <= 5 * MIN && age > 10 * MIN + gap {
             return TokVerdict::MustReject;
         }
         TokVerdict::Either
@@ -718,6 +725,11 @@ impl SrvState {
                 sim::local_set_clock(self.now);
                 return true;
             }
+            Act::Other { src, find_node } => {
+                let from = src_addr(src);
+                let bytes = if find_node { krpc::q_find_node(&t, &requester_id(src), &[0x33; 20], None) } else { krpc::q_ping(&t, &requester_id(src)) };
+                self.do_read(if find_node { "find_node" } else { "ping" }, from, bytes, out, path, &mut |_, _, _, _| {});
+            }
             Act::Get { src, target, seq } => {
                 let from = src_addr(src);
                 let tgt = self.target_of(target);
@@ -826,12 +838,16 @@ impl SrvState {
                 let from = src_addr(src);
                 let Some(token) = self.resolve_token(src, tok) else { return false };
                 let value = imm_value(v);
-                let target = if v == 3 { [0x99u8; 20] } else { krpc::immutable_target(&value) };
+                let target = match v {
+                    3 => [0x99u8; 20],
+                    6 | 7 => krpc::immutable_target(&imm_value(0)),
+                    _ => krpc::immutable_target(&value),
+                };
                 let mut defects = vec![];
                 if value.len() > 1000 {
                     defects.push(205);
                 }
-                if v == 3 {
+                if v == 3 || v == 6 || v == 7 {
                     defects.push(203);
                 }
                 let bytes = krpc::q_put_immutable(&t, &requester_id(src), &target, &token, &value);
